@@ -81,8 +81,10 @@ inline double real8_decode(uint64_t v) {
     return (v >> 63) ? -r : r;
 }
 
-inline uint64_t real8_encode(double x, bool denorm = false) {
-    if (x == 0) return 0;
+// denorm: how many hexadecimal digits the mantissa is shifted down (same value, not normalised)
+// zero_style: 0 all bits clear; bit 0 sets the sign of a zero; bit 1 gives a zero an exponent
+inline uint64_t real8_encode(double x, int denorm = 0, int zero_style = 0) {
+    if (x == 0) return ((zero_style & 1) ? 1ULL << 63 : 0) | ((zero_style & 2) ? 0x45ULL << 56 : 0);
     uint64_t sign = 0;
     if (x < 0) {
         sign = 1ULL << 63;
@@ -97,7 +99,7 @@ inline uint64_t real8_encode(double x, bool denorm = false) {
         mant >>= 4;
         e++;
     }
-    if (denorm && (mant & 0xF) == 0 && e + 64 < 127) {  // same value, non-normalised
+    for (int i = 0; i < denorm && (mant & 0xF) == 0 && e + 64 < 127; i++) {  // same value, non-normalised
         mant >>= 4;
         e++;
     }
@@ -139,6 +141,8 @@ struct Choices {
     bool explicit_defaults = false;  // PATHTYPE 0, STRANS 0, MAG 1, ANGLE 0 written although default
     bool omit_zero_width = false;    // WIDTH omitted when 0
     bool denorm_reals = false;
+    int denorm_depth = 1;  // hexadecimal digits shifted when denorm_reals
+    int zero_style = 0;    // how a real zero is spelt (sign bit, exponent bits)
     bool pad_after_endlib = false;
     int xy_split = 0;            // >0: split XY lists into records of at most this many points
     bool text_path_records = false;  // PATHTYPE/WIDTH inside TEXT
